@@ -209,6 +209,34 @@ pub fn recipients_check(
     }
 }
 
+/// Public keys of the nodes whose private keys a (former) member holds, per its own last tree.
+pub fn known_pks(g: &G) -> Vec<Vec<u8>> {
+    let (leaf, keys) = g.verif_private_keys();
+    let Ok(t) = Tree::parse(&tree_bytes(g)) else { return vec![] };
+    let mut nodes = vec![2 * leaf];
+    nodes.extend(tm::direct_path(2 * leaf, t.n_leaves()));
+    nodes
+        .iter()
+        .zip(keys.iter())
+        .filter(|(_, k)| k.is_some())
+        .filter_map(|(x, _)| t.node(*x).map(|n| n.key().to_vec()))
+        .collect()
+}
+
+/// C02: no secret may be HPKE-encrypted to a key whose private half a removed member holds.
+pub fn no_seal_to_removed(recs: &[Rec], ghosts: &[Ghost], ctx: &mut Ctx) {
+    for gh in ghosts {
+        let pks = known_pks(&gh.group);
+        for r in recs {
+            let Rec::HpkeSeal { pk, .. } = r else { continue };
+            ctx.eval();
+            if pks.contains(pk) {
+                ctx.violation_for("C02", "hpke-recipient|key-known-to-removed-member", format!("a commit encrypted a secret to a public key whose private key the removed member {} holds", gh.name));
+            }
+        }
+    }
+}
+
 pub fn parse_tree(bytes: &[u8], ctx: &mut Ctx, who: &str) -> Option<Tree> {
     match Tree::parse(bytes) {
         Ok(t) => Some(t),
